@@ -86,6 +86,10 @@ pub fn launch_target_actor(
 ) -> Result<(JoinHandle<()>, TargetActorHandleSet)> {
     let (termination_sender, termination_events) = channel::bounded(1);
     let (target_invalidated_sender, target_invalidated_events) = channel::bounded(1);
+    #[cfg(zinoma_verif)]
+    use crate::verif::hooks::sim_task as task;
+    #[cfg(zinoma_verif)]
+    crate::verif::hooks::register_invalidation_sender(target.id(), &target_invalidated_sender);
     let (target_actor_input_sender, target_actor_input_receiver) =
         channel::bounded(crate::DEFAULT_CHANNEL_CAP);
 
